@@ -216,9 +216,18 @@ def bad_blocks(errs):
 
 # ----------------------------------------------------------------------------- real code
 
-def run_impl(name, dtype, rows64, shape, api=0):
+MODES = ["default", "no_grad", "inference_mode", "inside-graph(non-leaf)", "requires_grad-leaf", "plain-Tensor->ltype.Exp",
+         "pp.Parameter", "nn.Parameter->ltype.Exp"]
+
+
+def run_impl(name, dtype, rows64, shape, api=0, mode=0, own=False):
     """Exp on the real code for a batch; rows64 = list of algebra elements (already exact in `dtype`).
-    returns (T, M) as float64 tensors of shape (N, GDIM), (N, n*n) plus structural problems (list of str)"""
+    api  = how the argument is built / laid out in memory (0 LieTensor(data), 1 pp.Exp(x), 2 pp.<alg>(data), 3 stride-2 view,
+           4 requires_grad leaf, 5 batch-row slice of a larger buffer, 6 transposed batch dims, 7 expanded, 8 from a python list,
+           9 module-level pp.tensor / pp.matrix);
+    mode = grad mode / operand type (MODES);  own = also check that the outputs own their memory.
+    returns (T, M) as float64 tensors of shape (N, GDIM), (N, n*n), structural problems (list of str), the LieTensor"""
+    import contextlib
     P = U.pp()
     D = U.dt(dtype)
     n, g, a = U.MATN[name], U.GDIM[name], U.ADIM[name]
@@ -241,42 +250,74 @@ def run_impl(name, dtype, rows64, shape, api=0):
         data = big.expand(tuple(shape) + (a,))
     if big is not None:
         big_before = big.clone()
-    if api == 4:     # an input that requires grad (forward values must be the same)
+    if api == 4 or mode == 4:     # an input that requires grad (forward values must be the same)
         data = data.clone().requires_grad_(True)
-    if api == 2:     # wrapper constructors of utils.py
-        x = getattr(P, U.ALG[name])(data)
-    else:
-        x = P.LieTensor(data, ltype=alg_ltype(name))
-    before = data.detach().clone()
-    X = P.Exp(x) if api == 1 else x.Exp()
-    if type(X).__name__ != "LieTensor" or X.ltype != U.ltype(name):
-        problems.append(f"type: Exp({U.ALG[name]}) returned {type(X).__name__} of ltype {getattr(X, 'ltype', None)}")
-    if tuple(X.shape) != tuple(shape) + (g,) or X.dtype != D:
-        problems.append(f"type: Exp({U.ALG[name]}) returned shape {tuple(X.shape)} dtype {X.dtype} for input {tuple(x.shape)} {D}")
+    elif mode == 3 and big is None:   # a non-leaf inside an autograd graph
+        data = data.clone().requires_grad_(True) * 1.0
+    cm = torch.no_grad() if mode == 1 else torch.inference_mode() if mode == 2 else contextlib.nullcontext()
+    with cm:
+        lt_ = alg_ltype(name)
+        if mode == 5:
+            x, X = P.LieTensor(data, ltype=lt_), lt_.Exp(data)
+        elif mode == 7:
+            prm = torch.nn.Parameter(data.detach())
+            x, X = P.LieTensor(prm, ltype=lt_), lt_.Exp(prm)
+        else:
+            if api == 2:     # wrapper constructors of utils.py
+                x = getattr(P, U.ALG[name])(data)
+            elif api == 8 and dtype == "float32" and mode == 0 and big is None and rows64:   # nested python list (default dtype float32)
+                x = getattr(P, U.ALG[name])(data.tolist())
+            else:
+                x = P.LieTensor(data, ltype=lt_)
+            if mode == 6:
+                x = P.Parameter(x)
+            X = P.Exp(x) if api == 1 else x.Exp()
+        before = torch.Tensor.as_subclass(x, torch.Tensor).detach().clone()
+        if type(X).__name__ != "LieTensor" or X.ltype != U.ltype(name):
+            problems.append(f"type: Exp({U.ALG[name]}) [{MODES[mode]}] returned {type(X).__name__} of ltype {getattr(X, 'ltype', None)}")
+        if tuple(X.shape) != tuple(shape) + (g,) or X.dtype != D:
+            problems.append(f"type: Exp({U.ALG[name]}) [{MODES[mode]}] returned shape {tuple(X.shape)} dtype {X.dtype} for input "
+                            f"{tuple(x.shape)} {D}")
+            return None, None, problems, None
+        Tr = P.tensor(X) if api == 9 else X.tensor()
+        Mr = P.matrix(X) if api == 9 else X.matrix()
+    if tuple(Mr.shape) != tuple(shape) + (n, n) or Mr.dtype != D:
+        problems.append(f"type: matrix() returned shape {tuple(Mr.shape)} dtype {Mr.dtype}")
         return None, None, problems, None
-    T = X.tensor()
-    M = X.matrix()
-    if tuple(M.shape) != tuple(shape) + (n, n) or M.dtype != D:
-        problems.append(f"type: matrix() returned shape {tuple(M.shape)} dtype {M.dtype}")
-        return None, None, problems, None
+    T = Tr.detach().double().reshape(-1, g).clone()
+    M = Mr.detach().double().reshape(-1, n * n).clone()
+    if own and rows64 and mode != 2:
+        # the outputs own their memory: overwrite one item of each result in place — nothing else may move
+        first = (0,) * len(shape)
+        with torch.no_grad():
+            Mr.detach()[first] = 55.0
+            if not torch.equal(torch.nan_to_num(X.tensor().detach().double().reshape(-1, g)), torch.nan_to_num(T)):
+                problems.append("alias: writing into the result of matrix() changed the group element it was computed from")
+            if not torch.equal(torch.nan_to_num(Mr.detach().double().reshape(-1, n * n)[1:]), torch.nan_to_num(M[1:])):
+                problems.append("alias: the items of the result of matrix() overlap in memory (writing item 0 changed another item)")
+            Tr.detach()[first] = 77.0
+            if not torch.equal(torch.nan_to_num(Tr.detach().double().reshape(-1, g)[1:]), torch.nan_to_num(T[1:])):
+                problems.append("alias: the items of the result of Exp overlap in memory (writing item 0 changed another item)")
+        if not torch.equal(torch.nan_to_num(x.Exp().tensor().detach().double().reshape(-1, g)), torch.nan_to_num(T)):
+            problems.append("alias: writing into the result of Exp changed a later Exp of the same argument")
     if not torch.equal(torch.Tensor.as_subclass(x, torch.Tensor).detach(), before):
-        problems.append("purity: Exp modified its argument")
+        problems.append("purity: Exp modified its argument" + (" (or its result aliases the argument)" if own else ""))
     if big is not None and not torch.equal(big, big_before):
         problems.append("purity: Exp/matrix modified the buffer its argument is a view of")
-    return T.detach().double().reshape(-1, g), M.detach().double().reshape(-1, n * n), problems, x
+    return T, M, problems, x
 
 
-def check_batch(ctx: Ctx, stream, name, dtype, rows, shape, api, lines, metas, extra=None):
+def check_batch(ctx: Ctx, stream, name, dtype, rows, shape, api, lines, metas, extra=None, mode=0, own=False):
     """run the real code on one batch and queue the model lines"""
     e = common.EPS[dtype]
     _, r64 = U.to_dtype_exact(rows, dtype) if rows else (None, torch.zeros(0, U.ADIM[name], dtype=torch.float64))
     rows64 = r64.tolist()
-    case = {"stream": stream, "type": name, "dtype": dtype, "shape": list(shape), "api": api, "X": rows64}
+    case = {"stream": stream, "type": name, "dtype": dtype, "shape": list(shape), "api": api, "mode": mode, "own": own, "X": rows64}
     if extra:
         case.update(extra)
     try:
-        T, M, problems, x = run_impl(name, dtype, rows64, shape, api)
-        if x is not None and rows64 and ctx.rng.random() < 0.25:
+        T, M, problems, x = run_impl(name, dtype, rows64, shape, api, mode, own)
+        if x is not None and rows64 and mode != 2 and ctx.rng.random() < 0.25:
             # second call on the same object and algebra-level matrix(): bitwise the same answer
             P = U.pp()
             X2 = x.Exp()
@@ -307,6 +348,7 @@ def check_batch(ctx: Ctx, stream, name, dtype, rows, shape, api, lines, metas, e
         ctx.count(f"{U.ALG[name]}.{dtype} {coarse_regime(name, xi, e)}")
     ctx.count(f"batch.{stream}.{U.ALG[name]}.{dtype}")
     ctx.count(f"shape.rank{len(shape)}")
+    ctx.count(f"mode.{MODES[mode]}")
     if rows64:
         ctx.sample({"type": U.ALG[name], "dtype": dtype, "shape": list(shape), "regimes": [regime_tag(name, r, e) for r in rows64[:4]]}, cap=10)
 
@@ -421,7 +463,8 @@ def run_random(ctx: Ctx, n_batches, lines, metas):
             shape = (rng.randint(2, 12),)
         n = int(math.prod(shape))
         rows = [gen_item(rng, name, e) for _ in range(n)]
-        check_batch(ctx, "random", name, dtype, rows, shape, rng.randrange(7), lines, metas)
+        check_batch(ctx, "random", name, dtype, rows, shape, rng.randrange(10), lines, metas,
+                    mode=rng.choice([0, 0, 0, 1, 2, 3, 4, 5, 6, 7]), own=rng.random() < 0.3)
 
 
 def run_repeat(ctx: Ctx, n_rounds, lines, metas):
@@ -469,6 +512,16 @@ def up_of(e):
 
 
 def corpus_batches():
+    """7-tuples (name, dtype, rows, shape, api, mode, own)"""
+    for t in _corpus_batches():
+        yield t if len(t) == 7 else tuple(t) + (0, False)
+
+
+SPECIAL_SHAPES = [(3,), (3, 3), (1, 3), (3, 1), (3, 3, 3), (2, 3), (3, 2), (4,), (4, 4), (6,), (6, 6), (7,), (7, 7), (8,), (5,), (11,), (13,),
+                  (17,), (1, 1, 3), (3, 1, 1), (4, 3), (3, 4), (6, 3), (3, 7)]
+
+
+def _corpus_batches():
     """seed-independent: every (theta, sigma) corner pair, axis-aligned (norm exact) and generic direction, fixed
     translations, logarithmic sweeps, fixed batch cuts (mixed regimes), degenerate shapes.
     yields (name, dtype, rows, shape, api)"""
@@ -525,6 +578,32 @@ def corpus_batches():
             yield name, dtype, reps[::-1], (len(reps),), 3
             yield name, dtype, reps, (2, 4), 6
             yield name, dtype, reps[::-1], (4, 2), 5
+            # grad modes x operand types x memory layouts (varied together), outputs must own their memory
+            for mode in range(len(MODES)):
+                for api in (0, 1, 3, 5, 9):
+                    yield name, dtype, reps, (len(reps),), api, mode, True
+                yield name, dtype, reps, (2, 4), 6, mode, True
+                yield name, dtype, [reps[4]] * 3, (3,), 7, mode, True
+            yield name, dtype, reps, (len(reps),), 8, 0, True
+            # special sizes in every batch position (3 = torch.cross without dim, 4/6/7/8 = feature dims, primes), mixed regimes
+            pool = reps + items[::37]
+            kk = 0
+            for shp in SPECIAL_SHAPES:
+                nn_ = int(math.prod(shp))
+                rows = [pool[(kk + 5 * i) % len(pool)] for i in range(nn_)]
+                kk += 3
+                yield name, dtype, rows, shp, 0, 0, (nn_ <= 16)
+                if nn_ <= 9:
+                    yield name, dtype, [reps[4 + (i % 2)] for i in range(nn_)], shp, 0, 0, False      # homogeneous large
+            # density around the switch-over points: eps(1 +- k ulp), eps(1 +- 2^-10), eps(1 +- 1e-3), both blocks, both signs
+            dens = []
+            for rel in (-1e-3, -2.0 ** -10, -3 * e, -2 * e, -e, -e / 2, 0.0, e, 2 * e, 3 * e, 2.0 ** -10, 1e-3):
+                v = e * (1 + rel)
+                for (th, sg) in ((v, 0.7), (1.0, v), (1.0, -v), (v, v), (v, -v)):
+                    for dd in CORNER_DIRS:
+                        dens.append((list(CORNER_TAUS[1]) if has_t else []) + [th * dd[0], th * dd[1], th * dd[2]] + ([sg] if has_s else []))
+            for i in range(0, len(dens), 24):
+                yield name, dtype, dens[i:i + 24], (len(dens[i:i + 24]),), 0
             # degenerate shapes
             z = [0.0] * U.ADIM[name]
             one = items[len(items) // 2]
@@ -533,12 +612,14 @@ def corpus_batches():
 
 
 def reuse_history():
-    """seed-independent call history under ONE batch shape: types, dtypes and regimes alternate between the calls"""
+    """seed-independent call history under ONE batch shape: types, dtypes, regimes and grad modes alternate between the
+    calls, in three different orders (a module-level cache written by one type/dtype and read by another)"""
     d = CORNER_DIRS[1]
     k = 0
-    for rnd in range(2):
-        for name in ("SE3", "Sim3", "SO3", "RxSO3", "Sim3", "SE3"):
-            for dtype in (("float64", "float32") if rnd == 0 else ("float32", "float64")):
+    seq = ["SE3", "Sim3", "SO3", "RxSO3", "Sim3", "SE3", "RxSO3", "SO3"]
+    for rnd, order in enumerate((seq, seq[::-1], seq[3:] + seq[:3])):
+        for name in order:
+            for dtype in (("float64", "float32") if rnd % 2 == 0 else ("float32", "float64")):
                 e = common.EPS[dtype]
                 has_s, has_t = name in ("RxSO3", "Sim3"), name in ("SE3", "Sim3")
                 rows = []
@@ -546,15 +627,74 @@ def reuse_history():
                     small = (k % 3 == 0) or (k % 3 == 2 and i == 1)
                     th, sg = ((e / 2, -e / 2) if small else (1.0 + i, 0.5 * (i + 1) * (-1) ** k))
                     rows.append((list(CORNER_TAUS[1]) if has_t else []) + [th * d[0], th * d[1], th * d[2]] + ([sg] if has_s else []))
-                yield name, dtype, rows, (3,), 0
+                yield name, dtype, rows, (3,), 0, (k * 3) % len(MODES)
                 k += 1
 
 
+def failing_calls(ctx: Ctx):
+    """error paths: calls that must raise (Exp of a group element, an algebra type applied to a tensor of the wrong width).
+    They are placed between the calls of the reuse history — whatever they do, the next valid call must be right."""
+    P = U.pp()
+    for fn in (lambda: P.identity_SE3(3).Exp(),
+               lambda: P.so3_type.Exp(torch.ones(3, 4)),
+               lambda: P.sim3_type.Exp(torch.ones(3, 6, dtype=torch.float64)),
+               lambda: P.se3_type.Exp(torch.ones(3, 3)),
+               lambda: P.rxso3_type.Exp("not a tensor")):
+        try:
+            fn()
+            ctx.count("error-path.no-raise")
+        except Exception:
+            ctx.count("error-path.raised")
+
+
+def copies_probe(ctx: Ctx):
+    """copy.deepcopy / pickle round trip / clone of an algebra LieTensor, then original and copies are updated in place
+    independently and read interleaved: each must give the Exp of its own current data (bit for bit against a fresh
+    LieTensor built from that data); copy.copy shares storage with the original (torch semantics) and must follow it."""
+    import copy
+    import pickle
+    P = U.pp()
+    d = CORNER_DIRS[1]
+    for name in U.GROUPS:
+        for dtype in ("float64", "float32"):
+            D = U.dt(dtype)
+            lt_ = alg_ltype(name)
+            has_s, has_t = name in ("RxSO3", "Sim3"), name in ("SE3", "Sim3")
+            rows = [(list(CORNER_TAUS[1]) if has_t else []) + [th * d[0], th * d[1], th * d[2]] + ([sg] if has_s else [])
+                    for th, sg in ((1.0, 0.5), (0.0, 0.0), (3.5, -1.0))]
+            case = {"stream": "copies", "type": name, "dtype": dtype}
+            try:
+                x = P.LieTensor(torch.tensor(rows, dtype=torch.float64).to(D), ltype=lt_)
+                x.Exp()                                     # a cache would be filled here
+                objs = {"original": x, "deepcopy": copy.deepcopy(x), "pickle": pickle.loads(pickle.dumps(x)), "clone": x.clone()}
+                shallow = copy.copy(x)
+                bump = torch.tensor(rows, dtype=torch.float64).to(D)
+                for step, (who, fac) in enumerate((("original", 0.5), ("deepcopy", -0.25), ("pickle", 2.0), ("clone", 0.0), ("original", 1.5))):
+                    objs[who].add_(fac * bump)
+                    for label, o in list(objs.items()) + [("copy.copy(shares storage)", shallow)]:
+                        ref = P.LieTensor(torch.Tensor.as_subclass(o, torch.Tensor).detach().clone(), ltype=lt_)
+                        got, want = o.Exp().tensor(), ref.Exp().tensor()
+                        gm, wm = o.matrix(), ref.matrix()
+                        ctx.note_case(("copies", name, dtype, label, step), True)
+                        ctx.count("copies")
+                        if not (torch.equal(torch.nan_to_num(got), torch.nan_to_num(want)) and torch.equal(torch.nan_to_num(gm), torch.nan_to_num(wm))):
+                            ctx.fail(case | {"step": step, "updated": who, "read": label},
+                                     f"copies: Exp/matrix of the {label} of a {U.ALG[name]} LieTensor after updating the {who} in place "
+                                     f"(step {step}) is not the Exp of its current data ({dtype})")
+                if not torch.equal(torch.Tensor.as_subclass(shallow, torch.Tensor), torch.Tensor.as_subclass(x, torch.Tensor)):
+                    ctx.count("copies.shallow-detached")
+            except Exception as ex:
+                ctx.fail(case, f"raises: copies probe on {U.ALG[name]} raised {type(ex).__name__}: {str(ex)[:140]}")
+
+
 def run_corpus(ctx: Ctx, lines, metas):
-    for name, dtype, rows, shape, api in reuse_history():
-        check_batch(ctx, "reuse", name, dtype, rows, shape, api, lines, metas)
-    for name, dtype, rows, shape, api in corpus_batches():
-        check_batch(ctx, "corpus", name, dtype, rows, shape, api, lines, metas)
+    for j, (name, dtype, rows, shape, api, mode) in enumerate(reuse_history()):
+        if j % 4 == 1:
+            failing_calls(ctx)
+        check_batch(ctx, "reuse", name, dtype, rows, shape, api, lines, metas, mode=mode)
+    copies_probe(ctx)
+    for name, dtype, rows, shape, api, mode, own in corpus_batches():
+        check_batch(ctx, "corpus", name, dtype, rows, shape, api, lines, metas, mode=mode, own=own)
 
 
 # ----------------------------------------------------------------------------- oracle (mpmath, the property itself)
@@ -590,7 +730,7 @@ def oracle_batch(ctx: Ctx, case, items=None, verbose=False) -> bool:
     n, g = U.MATN[name], U.GDIM[name]
     ok = True
     try:
-        T, M, problems, _ = run_impl(name, dtype, case["X"], case["shape"], case.get("api", 0))
+        T, M, problems, _ = run_impl(name, dtype, case["X"], case["shape"], case.get("api", 0), case.get("mode", 0), case.get("own", False))
     except Exception as ex:
         ctx.fail(case, f"raises: Exp/matrix on {U.ALG[name]} {dtype} raised {type(ex).__name__}: {str(ex)[:160]}")
         return False
@@ -708,11 +848,12 @@ def search(ctx: Ctx):
     if ctx.failures:
         return
     # the whole deterministic corpus (corners, thresholds +-1 ulp, quarter-decade sweeps) through the mpmath oracle
-    for name, dtype, rows, shape, api in corpus_batches():
+    for name, dtype, rows, shape, api, mode, own in corpus_batches():
         if not rows:
             continue
         r64 = U.to_dtype_exact(rows, dtype)[1].tolist()
-        oracle_batch(ctx, {"stream": "search-corpus", "type": name, "dtype": dtype, "shape": list(shape), "api": api, "X": r64})
+        oracle_batch(ctx, {"stream": "search-corpus", "type": name, "dtype": dtype, "shape": list(shape), "api": api, "mode": mode,
+                           "own": own, "X": r64})
         if len(ctx.failures) >= 5:
             return
     run_oracle(ctx, 3000)
@@ -723,6 +864,7 @@ def replay(ctx: Ctx, case) -> bool:
     if "X" not in c:   # persistent-object probe (stale reads): deterministic, re-run it
         print(f"  re-running the persistent-object probe ({c.get('type')}, {c.get('dtype')}, update {c.get('update')}, read {c.get('read')})")
         probe(ctx)
+        copies_probe(ctx)
         for f in ctx.failures[:5]:
             print("  fails:", f["what"][:300])
         return not ctx.failures
